@@ -94,7 +94,7 @@ def check(world) -> Dict[str, Any]:
                     cls = "?"
                 elif a["stream"] < 0:
                     cls = "cpu_bound"
-                elif a["name"].startswith("ncclKernel") or a["name"].startswith("ncclDevKernel"):
+                elif "ncclKernel" in a["name"] or "ncclDevKernel" in a["name"]:
                     cls = "gpu_communication_bound"
                 else:
                     cls = "gpu_compute_bound"
